@@ -16,6 +16,7 @@ pub mod block;
 pub mod cli;
 pub mod engine;
 pub mod gen;
+pub mod lpelem;
 pub mod minimize;
 pub mod miri_mode;
 pub mod rng;
